@@ -29,6 +29,10 @@ Qed.
 
 Definition tbl : list Z := [1; 4; 16; 64].
 
+Ltac splits := cbv zeta; repeat match goal with |- _ /\ _ => split end.
+Ltac vmr := vm_compute; first [reflexivity | congruence | lia].
+Ltac validc := split; [reflexivity|split; vm_compute; congruence].
+
 (** * Before fix-c04-1: a checkpoint written while the newest head is being sampled loses that head *)
 Definition cfg_a : cfg := mkCfg 10 1 tbl (mkVariant false true true true).
 Definition hist_a : list event :=
@@ -38,7 +42,7 @@ Theorem restart_cover_refuted :
   exists c es h, vr c = mkVariant false true true true /\ 1 <= limit c /\ 1 <= range c /\
     let s := run c init es in running s = true /\ lo s <= h <= head s /\ ~ covered s h.
 Proof.
-  exists cfg_a, hist_a, 4. repeat split; try reflexivity; try (vm_compute; congruence).
+  exists cfg_a, hist_a, 4. splits; try vmr.
   intros H. apply covered_coveredb in H. vm_compute in H. discriminate.
 Qed.
 
@@ -47,7 +51,7 @@ Example restart_cover_nonvacuous :
   let c := mkCfg 10 1 tbl repaired in let s := run c init hist_a in
   valid c /\ running s = true /\ lo s <= 4 <= head s /\ ~ In 4 (sampled s) /\ in_flight s 4.
 Proof.
-  cbv zeta. split; [repeat split; cbn; lia|]. split; [reflexivity|]. split; [vm_compute; split; congruence|].
+  cbv zeta. split; [validc|]. split; [vmr|]. split; [vm_compute; split; congruence|].
   split.
   - vm_compute. intros [H|[H|[H|[]]]]; discriminate.
   - exists (new_worker 1 Recent 4 4). vm_compute. split; [left; reflexivity|].
@@ -63,13 +67,13 @@ Theorem done_iff_refuted :
   exists c es, vr c = mkVariant true false true true /\ 1 <= limit c /\ 1 <= range c /\
     let s := run c init es in
     running s = true /\ workers s = [] /\ failed s = [] /\ head s < next s /\ done s = false.
-Proof. exists cfg_b, hist_b. repeat split; try reflexivity; vm_compute; congruence. Qed.
+Proof. exists cfg_b, hist_b. splits; vmr. Qed.
 
 Example done_iff_nonvacuous :
   let c := mkCfg 10 1 tbl repaired in
   valid c /\ done (run c init hist_b) = true /\ running (run c init hist_b) = true /\
   done (run c init (hist_b ++ [NewHead 3 []])) = false.
-Proof. cbv zeta. split; [repeat split; cbn; lia|]. repeat split; reflexivity. Qed.
+Proof. cbv zeta. split; [validc|]. splits; vmr. Qed.
 
 (** * Before fix-c13-2: a Canceled sampling error while the DASer runs ends the worker without a report;
       the job can never be delivered, its slot stays taken and catch-up cannot complete *)
@@ -84,7 +88,7 @@ Theorem report_once_refuted :
     (forall picks, step c s (Wake picks) = s) /\ done s = false.
 Proof.
   exists cfg_c, hist_c, (mkWorker 1 Catchup 1 5 3 [] true).
-  repeat split; try reflexivity; try (vm_compute; congruence).
+  splits; try vmr.
   vm_compute. left. reflexivity.
 Qed.
 
@@ -93,8 +97,8 @@ Example report_once_nonvacuous :
   valid c /\ running s = true /\
   exists w, In w (workers s) /\ wexit w = false /\ wfinished w = false /\ lookup 3 (wfail w) = Some 1.
 Proof.
-  cbv zeta. split; [repeat split; cbn; lia|]. split; [reflexivity|].
-  exists (mkWorker 1 Catchup 1 5 4 [(3, 1)] false). vm_compute. split; [left; reflexivity|]. repeat split.
+  cbv zeta. split; [validc|]. split; [vmr|].
+  exists (mkWorker 1 Catchup 1 5 4 [(3, 1)] false). vm_compute. split; [left; reflexivity|]. splits; reflexivity.
 Qed.
 
 (** * Before fix-c13-3: a catch-up result for a height that already failed twice resets its attempt count to 1 *)
@@ -108,29 +112,29 @@ Theorem attempt_monotone_refuted :
     let s := run c init es in
     ~ is_restart e /\ ~ reports_success s e k /\ ~ att_le (att_count s k) (att_count (step c s e) k).
 Proof.
-  exists cfg_d, hist_d, (Deliver 5 []), 4. repeat split; try reflexivity; try (vm_compute; congruence).
+  exists cfg_d, hist_d, (Deliver 5 []), 4. cbv zeta. split; [vmr|]. split; [vmr|]. split; [vmr|]. split; [|split].
   - intros [t [hd [p E]]]. discriminate.
   - intros [id [picks [w [E [Hf [_ Hl]]]]]]. injection E as <- <-. vm_compute in Hf. injection Hf as <-.
     vm_compute in Hl. discriminate.
-  - vm_compute. lia.
+  - vm_compute. intros H. apply H. reflexivity.
 Qed.
 
 Example attempt_monotone_nonvacuous :
   let c := mkCfg 2 1 tbl repaired in let s := run c init hist_d in
   valid c /\ att_count s 4 = Some 2 /\ att_count (step c s (Deliver 5 [])) 4 = Some 3.
-Proof. cbv zeta. split; [repeat split; cbn; lia|]. split; reflexivity. Qed.
+Proof. cbv zeta. split; [validc|]. split; vmr. Qed.
 
 (** * Bounds are reached, progress has something to do *)
 Example conc_bound_nonvacuous :
   let c := mkCfg 1 1 tbl repaired in
   let s := run c init [Restart 1 5 []; NewHead 6 []] in
   valid c /\ length (workers s) = 2%nat /\ nonrecent_workers s = 1%nat.
-Proof. cbv zeta. split; [repeat split; cbn; lia|]. split; reflexivity. Qed.
+Proof. cbv zeta. split; [validc|]. split; vmr. Qed.
 
 Example progress_nonvacuous :
   let c := mkCfg 2 1 tbl repaired in let s := run c init hist_d in
-  valid c /\ running s = true /\ done s = false /\ mu s = 6 /\ good c s (Deliver 5 []).
+  valid c /\ running s = true /\ done s = false /\ mu s = 11 /\ good c s (Deliver 5 []).
 Proof.
-  cbv zeta. split; [repeat split; cbn; lia|]. split; [reflexivity|]. split; [reflexivity|]. split; [reflexivity|].
-  eapply g_deliver; vm_compute; reflexivity.
+  cbv zeta. split; [validc|]. split; [vmr|]. split; [vmr|]. split; [vmr|].
+  eapply (g_deliver _ _ 5 (mkWorker 5 Catchup 4 4 5 [(4, 1)] false)); vmr.
 Qed.
